@@ -25,6 +25,7 @@ func init() {
 			return err
 		}
 		syscall.Umask(oc.Umask)
+		osProp = cfg.Prop
 		return runOSCase(oc, b, res)
 	}
 }
@@ -253,6 +254,12 @@ func runOSCase(c OSCase, b *Batch, res *Result) error {
 					twinRC = nil
 				}
 			}
+		}
+		if obsRC != nil && (route || opRouteHasLink(obsRC, op)) {
+			// an operation whose own route runs through a symlink may reach hidden content (K-hidden-symlink-route):
+			// whatever it did there, the VISIBLE parts of the two trees may differ from here on
+			execOp(obsRC, obsFS, op)
+			obsRC = nil
 		}
 		if obsRC != nil {
 			oout := execOp(obsRC, obsFS, op)
